@@ -25,6 +25,17 @@
 #include <stdio.h>
 #include <math.h>
 
+/* Allocation failure is out of scope of every property (listed assumption): the allocation
+ * functions are wrapped so that they never return NULL.  (cbmc --no-malloc-may-fail is NOT used: with
+ * that option CBMC 6.11 returned unconstrained values for pointer-typed struct members read through
+ * a symbolic array index into a malloc'ed object - bisected in the hashheap harness.) */
+static inline void *cmv_malloc(size_t n) { void *p = malloc(n); __CPROVER_assume(p != NULL); return p; }
+static inline void *cmv_calloc(size_t n, size_t m) { void *p = calloc(n, m); __CPROVER_assume(p != NULL); return p; }
+static inline void *cmv_realloc(void *q, size_t n) { void *p = realloc(q, n); __CPROVER_assume(p != NULL); return p; }
+#define malloc(n) cmv_malloc(n)
+#define calloc(n, m) cmv_calloc(n, m)
+#define realloc(q, n) cmv_realloc(q, n)
+
 #define CIMBA_CMB_ASSERT_H 1      /* suppress the real header (see above) */
 #include "cmi_config.h"
 
